@@ -208,6 +208,28 @@ def run(chk, replay=None):
                     if t not in example:
                         example[t] = (name, float(v.reshape(-1)[fi]))
                     chk.nontrivial('t|%s|%d|%d' % (name, p_, open_))
+        # float32 points against the float64 edges: neighbours of every edge in float32 steps, classified exactly
+        if n <= 500:
+            el64 = [float(x) for x in edges]
+            v32 = []
+            for e_ in el64:
+                b32 = numpy.float32(e_)
+                for j_ in (0, 1, -1, 2, -2, 9, -9):
+                    x32 = b32
+                    for _ in range(abs(j_)):
+                        x32 = numpy.nextafter(x32, numpy.float32(numpy.inf if j_ > 0 else -numpy.inf))
+                    v32.append(x32)
+            v32 = numpy.array(v32, dtype=numpy.float32)
+            for open_ in (False, True):
+                r = guarded(calc.bin1d_vec, v32, edges, right_continuous=open_)
+                chk.count(v32.size)
+                if isinstance(r, Raised):
+                    chk.violation('trace:bin1d_vec raised on float32 input', {'axis': name, 'err': repr(r)})
+                    continue
+                for x, i_ in zip(v32.tolist(), numpy.asarray(r).tolist()):
+                    t = (n, 1 if open_ else 0, alpha.classify(float(x), el64, 'float32'), int(i_))
+                    tuples[t] = tuples.get(t, 0) + 1
+                    example.setdefault(t, (name + ' [float32 points]', x))
         # random interior / far values through the scalar classifier (exact fractions)
         lo, hi = float(edges[0]), float(edges[-1])
         h = float(edges[1] - edges[0]) if n > 1 else 1.0
